@@ -422,7 +422,13 @@ func toOptions(configDetails *types.ConfigDetails, options []func(*Options)) *Op
 	for _, op := range options {
 		op(opts)
 	}
-	opts.ResourceLoaders = append(opts.ResourceLoaders, localResourceLoader{configDetails.WorkingDir})
+	// the local loader hands out paths that are looked up again (Dir of a loaded path): they must not depend on the
+	// process working directory twice when the project directory is relative
+	localDir := configDetails.WorkingDir
+	if abs, err := filepath.Abs(localDir); err == nil {
+		localDir = abs
+	}
+	opts.ResourceLoaders = append(opts.ResourceLoaders, localResourceLoader{localDir})
 	return opts
 }
 
